@@ -196,10 +196,10 @@ def check_c09(tier, seed):
     maxlen = 3 if tier == "quick" else 4
     b = Bounded(
         "C09.bounded",
-        bound=f"all interleavings of length <= {maxlen} of 7 actions (L1.backward, x.clear_graph, y.clear_graph, in-place update of the shared tensor, in-place update of a view of it, new op on the shared tensor, new op + its backward) between recording L2 and calling L2.backward(); two graphs sharing x (leaf) and y (intermediate)",
+        bound=f"all interleavings of length <= {maxlen} of 9 actions (L1.backward, x.clear_graph, y.clear_graph, in-place update of the shared tensor, in-place update of a view of it, new op on the shared tensor, new op + its backward, another graph's backward through the OTHER operand c, new op on c) between recording L2 and calling L2.backward(); two graphs sharing x (leaf) and y (intermediate)",
         rule="case = the action list; non-trivial = at least one action clears part of L2's graph",
     )
-    actions = ["L1.backward", "x.clear", "y.clear", "x[...]=c", "view-of-x*=c", "new-op", "new-op-backward"]
+    actions = ["L1.backward", "x.clear", "y.clear", "x[...]=c", "view-of-x*=c", "new-op", "new-op-backward", "c.other-graph-backward", "c.new-op"]
     b.fail_cap = 100000  # every failing history is reported: the known finding F4 is an exact list, nothing may hide behind it
     for L, dangling in itertools.product(range(0, maxlen + 1), (False, True)):
         if dangling and L == maxlen and tier == "quick":
@@ -234,6 +234,10 @@ def check_c09(tier, seed):
                         _z = x + 1.0
                     elif a == "new-op-backward":
                         (x * 5.0).sum().backward()
+                    elif a == "c.other-graph-backward":
+                        (c * 4.0).sum().backward()  # clears the consumers of the OTHER operand of y = x*c
+                    elif a == "c.new-op":
+                        _w = c + 1.0
             except Exception as e:
                 # an action itself may legitimately fail (e.g. in-place update on a disconnected view)
                 b.case(desc, nontrivial=False)
